@@ -627,6 +627,16 @@ def forced_cases():
         for em in ("es", "gae", "gaussian"):
             cfg = {"kind": "grid", "dtype": "float64", "extras": 1, "state": "some", "pseed": 1, "emitter": em, "spy": 1, "mae": 0}
             mk("Emitter.tell", cfg, {n: lay for n in ARG_NAMES["Emitter.tell"]})
+        # one-stage rankers return the caller's own objective / add-feedback array as ranking values: every evolution strategy gets them
+        for es in ["cma_es", "sep_cma_es", "openai_es"] + (["pycma_es"] if HAVE_PYCMA else []):
+            for rk in ("obj", "imp"):
+                for em in ("es", "gae"):
+                    mk("Emitter.tell", {"kind": "grid", "dtype": "float64", "extras": 0, "state": "some", "pseed": 1, "emitter": em, "spy": 0, "mae": 0,
+                                        "es": es, "ranker": rk, "grad_opt": "adam"}, {n: lay for n in ARG_NAMES["Emitter.tell"]})
+                if es != "openai_es":
+                    mk("Scheduler.tell", {"kind": "grid", "dtype": "float64", "extras": 0, "state": "some", "pseed": 1, "mode": "batch", "result": 0,
+                                          "emitters": ["gaussian", "es"], "rf": 3, "bc": 3, "normalize": 1, "mae": 0, "lc": 0, "es": es, "ranker": rk},
+                       {n: lay for n in ARG_NAMES["Scheduler.tell"]})
         for kind in ("grid", "sliding"):
             cfg = {"kind": kind, "dtype": "float64", "extras": 0, "state": "some", "pseed": 1, "mode": "batch", "result": 0,
                    "emitters": ["gaussian", "es"], "rf": 3, "bc": 3, "normalize": 1, "mae": 0}
